@@ -23,6 +23,15 @@ def tu(path, defines=(), **kw):
     return _TU[k]
 
 
+def nc(e):
+    """drop the source-type slot of cast nodes (typedef spelling varies: size_t / unsigned long)"""
+    if not isinstance(e, tuple):
+        return e
+    if e and e[0] == "cast":
+        return ("cast", nc(e[1]), e[2])
+    return tuple(nc(x) for x in e)
+
+
 def need(t, fn):
     f = t.funcs.get(fn)
     if f is None:
@@ -224,8 +233,8 @@ def rule_FC(ctx):
     ctx.ob(a[2] == ("bin", "/", ("int", 1024), ("int", 64)) and a[3] == ("var", "key", "param") and a[0] == ("var", "chunks_array", "var") and a[1] == ("var", "chunks_array_len", "var") and a[9] == ("var", "out", "param"),
            "c-chunks-batch-operands", t.path, "inputs=%s n=%s blocks=%s key=%s out=%s" % (cshow(a[0]), cshow(a[1]), cshow(a[2]), cshow(a[3]), cshow(a[9])))
     pc = [s for s, g in walk_stmts(f["body"]) if s[0] == "decl" and s[1] == "counter"]
-    want = ("bin", "+", ("var", "chunk_counter", "param"), ("cast", ("var", "chunks_array_len", "var"), "uint64_t", "size_t"))
-    ctx.ob(len(pc) == 1 and pc[0][3] == want, "c-chunks-partial-counter", t.path, "partial chunk counter = %s" % (cshow(pc[0][3]) if pc else "?"))
+    want = ("bin", "+", ("var", "chunk_counter", "param"), ("cast", ("var", "chunks_array_len", "var"), "uint64_t"))
+    ctx.ob(len(pc) == 1 and nc(pc[0][3]) == want, "c-chunks-partial-counter", t.path, "partial chunk counter = %s" % (cshow(pc[0][3]) if pc else "?"))
     asg = [s for s, g in walk_stmts(f["body"]) if s[0] == "assign" and s[2] == ("member", ("var", "chunk_state", "var"), "chunk_counter")]
     ctx.ob(len(asg) == 1 and asg[0][3] == ("var", "counter", "var"), "c-chunks-partial-counter-stored", t.path, "chunk_state.chunk_counter = counter")
     f = need(t, "compress_parents_parallel")
@@ -504,3 +513,176 @@ def rule_M3C(ctx):
     f = need(d, "blake3_xof_many")
     ok = f["body"] and f["body"][0][0] == "if" and f["body"][0][1] == ("bin", "==", ("var", "outblocks", "param"), ("int", 0)) and f["body"][0][2] and f["body"][0][2][0][0] == "return"
     ctx.ob(bool(ok), "c-zero-length-noop:blake3_xof_many", where(d, f["line"]), "first statement of blake3_xof_many is `if (outblocks == 0) return;`: %s" % bool(ok))
+
+
+# ---------------------------------------------------------------- dispatcher (D1-C), globals, TBB seam ----
+ISA_FEATURE = {"avx512": {"AVX512VL", "AVX512F"}, "avx2": {"AVX2"}, "sse41": {"SSE41"}, "sse2": {"SSE2"}}
+DEGREE = {"avx512": 16, "avx2": 8, "sse41": 4, "sse2": 4}
+
+
+def guard_features(g):
+    """set of feature enumerators a guard condition tests: `features & X`  or  `(features & (A|B)) == (A|B)`"""
+    out = set()
+    def feats(e):
+        s = set()
+        cast.walk_expr(e, lambda x: s.add(x[1]) if x[0] == "enum" else None)
+        return s
+    if g[0] == "bin" and g[1] == "&" and g[2] == ("var", "features", "var"):
+        return feats(g[3]), "any"
+    if g[0] == "bin" and g[1] == "==" and g[2][0] == "bin" and g[2][1] == "&" and g[2][2] == ("var", "features", "var") and feats(g[2][3]) == feats(g[3]):
+        return feats(g[3]), "all"
+    return None, None
+
+
+def rule_D1C(ctx):
+    combos = [(), ("BLAKE3_NO_AVX512",), ("BLAKE3_NO_AVX512", "BLAKE3_NO_AVX2"), ("BLAKE3_NO_AVX512", "BLAKE3_NO_AVX2", "BLAKE3_NO_SSE41"),
+              ("BLAKE3_NO_AVX512", "BLAKE3_NO_AVX2", "BLAKE3_NO_SSE41", "BLAKE3_NO_SSE2")]
+    if ctx.tier == "quick":
+        combos = [combos[0], combos[-1], combos[1]]
+    for defs in combos:
+        t = tu("c/blake3_dispatch.c", defs)
+        tag = "+".join(d.replace("BLAKE3_", "") for d in defs) or "default"
+        disabled = set(d.replace("BLAKE3_NO_", "").lower() for d in defs)
+        chains = {}
+        for op in ("compress_in_place", "compress_xof", "xof_many", "hash_many"):
+            f = need(t, "blake3_" + op)
+            params = tuple(("var", p[0], "param") for p in f["params"])
+            chain = []
+            for c, g, line in calls_in(f["body"]):
+                if not isinstance(c[1], str) or not c[1].startswith("blake3_" + op + "_"):
+                    continue
+                isa = c[1][len("blake3_" + op + "_"):]
+                if isa == "portable":
+                    ctx.ob(c[2] == params or (op == "xof_many"), "c-dispatch-fallback:%s:%s" % (op, tag), where(t, line), "fallback %s" % cshow(c)[:120])
+                    chain.append(("portable", None))
+                    continue
+                feats = None
+                for cond, pol in g:
+                    fs, mode = guard_features(cond)
+                    if fs is not None and pol:
+                        feats = fs
+                need_f = ISA_FEATURE.get(isa, {"?"})
+                ok = feats is not None and bool(feats & need_f) and feats <= need_f
+                ctx.ob(ok, "c-dispatch-guard:%s:%s:%s" % (op, isa, tag), where(t, line), "%s called under `features & %s` ; kernel ISA %s" % (c[1], sorted(feats) if feats else None, isa))
+                ctx.ob(c[2] == params, "c-dispatch-passthrough:%s:%s:%s" % (op, isa, tag), where(t, line), "%s(%s)" % (c[1], ", ".join(cshow(a) for a in c[2]))[:160])
+                ctx.ob(isa not in disabled, "c-dispatch-disabled-absent:%s:%s:%s" % (op, isa, tag), where(t, line), "kernel %s present although BLAKE3_NO_%s is defined" % (isa, isa.upper()) if isa in disabled else "enabled")
+                chain.append((isa, frozenset(feats or ())))
+            chains[op] = chain
+            if op in ("compress_in_place", "compress_xof", "hash_many"):
+                ctx.ob(bool(chain) and chain[-1][0] == "portable", "c-dispatch-ends-portable:%s:%s" % (op, tag), where(t, f["line"]), "chain %s" % [c[0] for c in chain])
+        # xof_many: portable fallback is a loop over blake3_compress_xof with counter + i
+        f = need(t, "blake3_xof_many")
+        loops = [s for s, g in walk_stmts(f["body"]) if s[0] == "loop"]
+        okx = False
+        for lp in loops:
+            for c, g, line in calls_in(lp[3]):
+                if c[1] == "blake3_compress_xof" and c[2][3] == ("bin", "+", ("var", "counter", "param"), ("var", "i", "var")) and c[2][:3] == (("var", "cv", "param"), ("var", "block", "param"), ("var", "block_len", "param")) \
+                        and c[2][4] == ("var", "flags", "param") and c[2][5] == ("bin", "+", ("var", "out", "param"), ("bin", "*", ("int", 64), ("var", "i", "var"))):
+                    okx = lp[2] == ("bin", "<", ("var", "i", "var"), ("var", "outblocks", "param"))
+        ctx.ob(okx, "c-xof-fallback-loop:%s" % tag, where(t, f["line"]), "for i < outblocks: blake3_compress_xof(cv, block, block_len, counter + i, flags, out + 64*i): %s" % okx)
+        # simd_degree: return values per guard, <= MAX_SIMD_DEGREE, same chain as hash_many
+        sd = need(t, "blake3_simd_degree")
+        rets = []
+        for s, g in walk_stmts(sd["body"]):
+            if s[0] == "return":
+                feats = None
+                for cond, pol in g:
+                    fs, mode = guard_features(cond)
+                    if fs is not None and pol:
+                        feats = fs
+                rets.append((frozenset(feats) if feats else None, s[1]))
+        hm = [c for c in chains["hash_many"] if c[0] != "portable"]
+        sdc = [r for r in rets if r[0] is not None]
+        ctx.ob([c[1] for c in hm] == [r[0] for r in sdc], "c-simd-degree-chain-equals-hash_many:%s" % tag, where(t, sd["line"]),
+               "simd_degree tests %s ; hash_many tests %s" % ([sorted(r[0]) for r in sdc], [sorted(c[1]) for c in hm]))
+        for (isa, fs), (fs2, v) in zip(hm, sdc):
+            ctx.ob(v == ("int", DEGREE[isa]) and DEGREE[isa] <= 16, "c-simd-degree:%s:%s" % (isa, tag), where(t, sd["line"]), "%s => degree %s ; kernel width %d, MAX_SIMD_DEGREE 16" % (sorted(fs2), cshow(v), DEGREE[isa]))
+        last = [r for r in rets if r[0] is None]
+        ctx.ob(bool(last) and last[-1][1] == ("int", 1), "c-simd-degree-fallback:%s" % tag, where(t, sd["line"]), "fallback degree %s" % (cshow(last[-1][1]) if last else "?"))
+
+
+def rule_G1C(ctx):
+    for path in ("c/blake3.c", "c/blake3_dispatch.c", "c/blake3_portable.c"):
+        t = tu(path)
+        n = 0
+        for g in t.globals:
+            f = g.get("file") or ""
+            if "/usr/" in f or f.startswith("/usr") or "lib/clang" in f:
+                continue
+            if g["storage"] == "extern" and not g["has_init"]:
+                continue
+            n += 1
+            is_cache = g["name"] == "g_cpu_features" and path.endswith("dispatch.c")
+            const = g["type"].startswith("const ") or " const" in g["type"].split("[")[0]
+            ctx.ob(const or is_cache, "c-global:%s:%s" % (os.path.basename(path), g["name"]), where(t, g["line"]),
+                   "%s %s: %s" % (g["storage"], g["type"], "idempotent CPU-feature cache" if is_cache else "const data" if const else "mutable static storage other than the feature-detection cache"))
+        # function-local statics
+        for fn, f in t.funcs.items():
+            for s, gg in walk_stmts(f["body"]):
+                if s[0] == "decl" and "static" in s[2].split() and "const" not in s[2]:
+                    ctx.ob(False, "c-local-static:%s:%s" % (fn, s[1]), where(t, s[4]), "function-local mutable static %s %s" % (s[2], s[1]))
+    d = tu("c/blake3_dispatch.c")
+    stores = []
+    for fn, f in d.funcs.items():
+        for s, g in walk_stmts(f["body"]):
+            if s[0] == "assign" and s[2] == ("var", "g_cpu_features", "var"):
+                stores.append((fn, s[3], s[4]))
+            if s[0] == "expr" or s[0] == "decl":
+                e = s[1] if s[0] == "expr" else s[3]
+                if e is not None:
+                    cast.walk_expr(e, lambda x: stores.append((fn, x, s[-1])) if x[0] == "un" and x[1] == "&" and x[2] == ("var", "g_cpu_features", "var") else None)
+    ctx.ob(len(stores) == 1 and stores[0][0] == "get_cpu_features" and stores[0][1] == ("var", "features", "var"), "c-cache-single-store", "c/blake3_dispatch.c",
+           "stores to g_cpu_features: %s" % [(fn, cshow(v)) for fn, v, l in stores])
+    # the stored value is computed from cpuid / xgetbv only: every `features |= X` sits under tests of regs / mask
+    gf = need(d, "get_cpu_features")
+    srcs = set()
+    for c, g, line in calls_in(gf["body"]):
+        if isinstance(c[1], str):
+            srcs.add(c[1])
+    ctx.ob(srcs <= {"cpuid", "cpuidex", "xgetbv"}, "c-cache-value-from-cpuid", where(d, gf["line"]), "get_cpu_features calls only %s" % sorted(srcs))
+
+
+def rule_G5C(ctx):
+    t = tu("c/blake3.c", ("BLAKE3_USE_TBB",))
+    f = need(t, "blake3_compress_subtree_wide")
+    js = [c for c, g, l in calls_in(f["body"]) if c[1] == "blake3_compress_subtree_wide_join_tbb"]
+    V = lambda n, k="var": ("var", n, k)
+    want = (V("key", "param"), V("flags", "param"), V("use_tbb", "param"),
+            V("input", "param"), V("left_input_len"), V("chunk_counter", "param"), V("cv_array"), ("un", "&", V("left_n")),
+            V("right_input"), V("right_input_len"), V("right_chunk_counter"), V("right_cvs"), ("un", "&", V("right_n")))
+    ctx.ob(len(js) == 1 and js[0][2] == want, "c-tbb-seam-arguments", "c/blake3.c", "join_tbb(%s)" % (", ".join(cshow(a) for a in js[0][2]) if js else "?")[:200])
+    d = {s[1]: s[3] for s, g in walk_stmts(f["body"]) if s[0] == "decl"}
+    ok = d.get("right_input") == ("un", "&", ("index", V("input", "param"), V("left_input_len"))) and d.get("right_input_len") == ("bin", "-", V("input_len", "param"), V("left_input_len")) \
+        and nc(d.get("right_chunk_counter")) == ("bin", "+", V("chunk_counter", "param"), ("cast", ("bin", "/", V("left_input_len"), ("int", 1024)), "uint64_t")) \
+        and d.get("right_cvs") == ("un", "&", ("index", V("cv_array"), ("bin", "*", V("degree"), ("int", 32)))) and d.get("left_input_len") == ("call", "left_subtree_len", (V("input_len", "param"),))
+    ctx.ob(ok, "c-subtree-split", "c/blake3.c", "right half = &input[left_len], input_len-left_len, counter+left_len/CHUNK_LEN, &cv_array[degree*OUT_LEN]: %s" % ok)
+    # serial build: the two recursive calls use their own side's operands
+    t0 = tu("c/blake3.c")
+    f0 = need(t0, "blake3_compress_subtree_wide")
+    rec = [(s[2], s[3]) for s, g in walk_stmts(f0["body"]) if s[0] == "assign" and s[3][0] == "call" and s[3][1] == "blake3_compress_subtree_wide"]
+    wl = ("call", "blake3_compress_subtree_wide", (V("input", "param"), V("left_input_len"), V("key", "param"), V("chunk_counter", "param"), V("flags", "param"), V("cv_array"), V("use_tbb", "param")))
+    wr = ("call", "blake3_compress_subtree_wide", (V("right_input"), V("right_input_len"), V("key", "param"), V("right_chunk_counter"), V("flags", "param"), V("right_cvs"), V("use_tbb", "param")))
+    ctx.ob(rec == [(V("left_n"), wl), (V("right_n"), wr)], "c-serial-recursion", "c/blake3.c", "left_n/right_n = recursive calls on their own halves: %s" % (rec == [(V("left_n"), wl), (V("right_n"), wr)]))
+    stubs = os.path.join(VERIF, "engines", "cfront", "stubs")
+    x = tu("c/blake3_tbb.cpp", (), lang="c++", extra_args=("-std=c++20", "-I", stubs, "-fno-exceptions"))
+    jf = x.funcs.get("blake3_compress_subtree_wide_join_tbb")
+    if jf is None:
+        raise MissingAnchor("blake3_compress_subtree_wide_join_tbb in c/blake3_tbb.cpp")
+    P_ = lambda n: ("var", n, "param")
+    lams = []
+    for c, g, l in calls_in(jf["body"]):
+        if isinstance(c[1], tuple) or (isinstance(c[1], str) and "parallel_invoke" in c[1]):
+            lams = [a for a in c[2] if a[0] == "lambda"]
+    if not lams:
+        for s, g in walk_stmts(jf["body"]):
+            if s[0] == "expr":
+                cast.walk_expr(s[1], lambda z: lams.append(z) if z[0] == "lambda" else None)
+    ctx.ob(len(lams) == 2, "c-tbb-two-lambdas", "c/blake3_tbb.cpp", "%d lambda(s) handed to parallel_invoke" % len(lams))
+    sides = [("l", "l_n"), ("r", "r_n")]
+    for (pre, nres), lam in zip(sides, lams):
+        byref = [c for c in lam[1] if c.strip().endswith("&")]
+        ctx.ob(not byref, "c-tbb-capture-by-value:%s" % pre, "c/blake3_tbb.cpp", "captures %s" % list(lam[1]))
+        body = list(lam[2])
+        want = ("assign", "=", ("un", "*", ("var", nres, "param")), ("call", "blake3_compress_subtree_wide", (P_(pre + "_input"), P_(pre + "_input_len"), P_("key"), P_(pre + "_chunk_counter"), P_("flags"), P_(pre + "_cvs"), P_("use_tbb"))))
+        ok = len(body) == 1 and body[0][:4] == want
+        ctx.ob(ok, "c-tbb-lambda-own-side:%s" % pre, "c/blake3_tbb.cpp", "lambda body: %s" % (cshow(body[0][3])[:140] if body and body[0][0] == "assign" else body[:1]))
